@@ -29,12 +29,29 @@ func envOr(k, d string) string {
 	return d
 }
 
-// harnessFiles lists the overlay files (virtual name in repo -> real path).
-func overlayFiles(native bool) map[string]string {
+// harnessFileOf finds the harness source file that defines function fn.
+func harnessFileOf(fn string) string {
+	hs, _ := filepath.Glob(filepath.Join(verifDir, "harness", "*.go"))
+	for _, h := range hs {
+		b, err := os.ReadFile(h)
+		if err == nil && strings.Contains(string(b), "func "+fn+"(") {
+			return h
+		}
+	}
+	return ""
+}
+
+// overlayFiles lists the overlay files (virtual name in repo -> real path). With a nil `only`
+// every harness file is included; otherwise the shared libraries plus the listed files.
+func overlayFiles(native bool, only map[string]bool) map[string]string {
 	m := map[string]string{}
 	hs, _ := filepath.Glob(filepath.Join(verifDir, "harness", "*.go"))
 	for _, h := range hs {
-		m[filepath.Join(repoDir, "zz_verif_h_"+filepath.Base(h))] = h
+		base := filepath.Base(h)
+		if only != nil && !only[h] && base != "lib.go" && base != "batchlib.go" {
+			continue
+		}
+		m[filepath.Join(repoDir, "zz_verif_h_"+base)] = h
 	}
 	if native {
 		m[filepath.Join(repoDir, "zz_verif_rt_native.go")] = filepath.Join(verifDir, "rt", "rt_native.go")
@@ -45,9 +62,11 @@ func overlayFiles(native bool) map[string]string {
 	return m
 }
 
-func loadEngine(cfg Config) (*Engine, error) {
+func loadEngine(cfg Config) (*Engine, error) { return loadEngineFiles(cfg, nil) }
+
+func loadEngineFiles(cfg Config, only map[string]bool) (*Engine, error) {
 	ov := map[string][]byte{}
-	for virt, real := range overlayFiles(false) {
+	for virt, real := range overlayFiles(false, only) {
 		b, err := os.ReadFile(real)
 		if err != nil {
 			return nil, err
@@ -72,7 +91,7 @@ func loadEngine(cfg Config) (*Engine, error) {
 	}
 	prog, spkgs := ssautil.AllPackages(pkgs, ssa.InstantiateGenerics)
 	prog.Build()
-	g := &Engine{prog: prog, pkg: spkgs[0], cfg: cfg, strIdx: map[string]uint32{}, fnCount: map[string]int{}}
+	g := &Engine{prog: prog, pkg: spkgs[0], cfg: cfg, strIdx: map[string]uint32{}, fnCount: map[string]int{}, only: only}
 	g.intern("")
 	return g, nil
 }
